@@ -175,10 +175,20 @@ func runC01(rc *sk.RunCtx) {
 			c.groups = []string{"ops", "dev"}
 		}
 		if tp.Chance(1, 2) {
-			c.nets = []netip.Prefix{netip.MustParsePrefix("10.128.0.0/16")}
+			// one range, nested ranges in either order, disjoint ranges
+			c.nets = [][]netip.Prefix{
+				{netip.MustParsePrefix("10.128.0.0/16")},
+				{netip.MustParsePrefix("10.128.0.0/24"), netip.MustParsePrefix("10.128.0.0/16")},
+				{netip.MustParsePrefix("10.128.0.0/16"), netip.MustParsePrefix("10.128.0.0/24")},
+				{netip.MustParsePrefix("10.200.0.0/16"), netip.MustParsePrefix("10.128.0.0/16")},
+			}[tp.Choose(4)]
 		}
 		if tp.Chance(1, 2) {
-			c.unsafe = []netip.Prefix{netip.MustParsePrefix("172.16.0.0/12")}
+			c.unsafe = [][]netip.Prefix{
+				{netip.MustParsePrefix("172.16.0.0/12")},
+				{netip.MustParsePrefix("172.20.0.0/24"), netip.MustParsePrefix("172.16.0.0/12")},
+				{netip.MustParsePrefix("172.16.0.0/12"), netip.MustParsePrefix("192.168.0.0/16")},
+			}[tp.Choose(3)]
 		}
 		c.ca = newSimCA(v, curve, c.name, c.nb, c.na, c.nets, c.unsafe, c.groups)
 		cas = append(cas, c)
@@ -217,7 +227,9 @@ func runC01(rc *sk.RunCtx) {
 			{netip.PrefixFrom(netip.AddrFrom4([4]byte{10, 128, 7, host}), 24)},
 			{netip.PrefixFrom(netip.AddrFrom4([4]byte{10, 200, 0, host}), 24)},
 			{netip.PrefixFrom(netip.AddrFrom4([4]byte{10, 128, 0, host}), 8)},
-		}[tp.Choose(4)]
+			{netip.PrefixFrom(netip.AddrFrom4([4]byte{10, 128, 0, host}), 20)}, // fits a /16 range but not a nested /24
+			{netip.PrefixFrom(netip.AddrFrom4([4]byte{10, 128, 0, host}), 24), netip.PrefixFrom(netip.AddrFrom4([4]byte{10, 200, 3, host}), 24)},
+		}[tp.Choose(6)]
 		switch tp.Choose(4) {
 		case 1:
 			l.unsafe = []netip.Prefix{netip.MustParsePrefix("172.20.0.0/16")}
@@ -334,6 +346,23 @@ func runC01(rc *sk.RunCtx) {
 				if (errC == nil) != (err == nil) {
 					rc.Fail("cached-differs", "%s (t=+%ds): %s — cached re-check says %v, full check says %v", when, t.Unix()-now.Unix(), l.name, errOrAccept(errC), errOrAccept(err))
 					return false
+				}
+				// clock fault: the node's clock was stepped back (NTP correction) after the certificate was accepted;
+				// the re-check at that earlier instant must still equal the rule and the full check
+				if tp.Chance(1, 3) {
+					tb := []time.Time{l.nb.Add(-time.Second), l.nb, l.ca.nb.Add(-time.Second), t.Add(-time.Duration(1+tp.Choose(300)) * time.Second)}[tp.Choose(4)]
+					wantB, whyB := refAccept(l, tb, blocked)
+					_, errFB := pool.VerifyCertificate(tb, l.crt)
+					errCB := pool.VerifyCachedCertificate(tb, l.cached)
+					stats["probe.clock_step_back_rechecks"]++
+					if (errFB == nil) != wantB {
+						rc.Fail("verdict-differs", "%s (clock stepped back to t=%+ds): %s (%s, issuer %s) — VerifyCertificate says %v, the trust rule says accept=%v (%s)", when, tb.Unix()-now.Unix(), l.name, l.kind, l.ca.name, errOrAccept(errFB), wantB, whyB)
+						return false
+					}
+					if (errCB == nil) != wantB {
+						rc.Fail("cached-differs", "%s (clock stepped back to t=%+ds): %s — cached re-check says %v, full check says %v, the trust rule says accept=%v (%s)", when, tb.Unix()-now.Unix(), l.name, errOrAccept(errCB), errOrAccept(errFB), wantB, whyB)
+						return false
+					}
 				}
 			}
 		}
